@@ -321,7 +321,22 @@ func genC03WhereVar(t *rapid.T) *Bundle {
 	}
 	k1 := float64(rapid.IntRange(-1, 2).Draw(t, "lim1"))
 	k2 := float64(rapid.IntRange(-1, 3).Draw(t, "lim2"))
-	gcols := rapid.SampledFrom([][]string{{"g1"}, {"g3"}, {"g1", "g3"}}).Draw(t, "gcols")
+	gcols := rapid.SampledFrom([][]string{{"g1"}, {"g3"}, {"g1", "g3"}, {}}).Draw(t, "gcols")
+	if len(gcols) == 0 {
+		// the whole-table form: the caller changes the variable between the two Execs
+		mkw := func(k float64) *c03Expect {
+			return &c03Expect{Aggs: []c03Agg{{Fn: "count", Alias: "r0"}, {Fn: "sum", Col: "y", Alias: "r1"}, {Fn: "max", Col: "z", Alias: "r2"}}, Where: &c03Pred{Col: "y", Op: ">", K: k}}
+		}
+		e := mkw(k1)
+		e.Query = "SELECT COUNT(*) AS r0, SUM(y) AS r1, MAX(z) AS r2 FROM t WHERE y > GETVAR('lim')"
+		e.Rows, e.Lenient, _ = referenceGroupBy(e, table)
+		e.Rows2, e.Len2, _ = referenceGroupBy(mkw(k2), table)
+		e.HasRows2 = true
+		sim := casefmt.SimConfig{Strategy: "np", MapPolicy: "sorted"}
+		c := oneClientCase("C03", sim, map[string]any{"t": table}, casefmt.Op{Doc: 0, Vars: 0, Query: e.Query, ExecTwice: true, VarsBetween: map[string]any{"lim": k2}})
+		c.Vars = []map[string]any{{"lim": k1}}
+		return &Bundle{Prop: "C03", Kind: "where_var", Case: c, Expect: mustJSON(e), Tags: []string{"where_var", "whole_table"}}
+	}
 	mk := func(k float64) *c03Expect {
 		return &c03Expect{GroupBy: gcols, SelCols: gcols, Aggs: []c03Agg{{Fn: "count", Alias: "r0"}, {Fn: "sum", Col: "y", Alias: "r1"}, {Fn: "max", Col: "z", Alias: "r2"}},
 			Where: &c03Pred{Col: "y", Op: ">", K: k}}
